@@ -45,7 +45,7 @@ class UnitCtor(Contract):
     The C01 table invariant is the precondition `C01-dimension-is-fold`."""
     qual = "measured.Unit"
     ctor = True
-    props = ("C01", "C02")
+    props = ("C01", "C02", "C15", "C17", "C20")
     inv = ("I_D", "I_P", "I_U")
     modifies = ("new:Unit", "Unit._known")
     types = {"prefix": [T_PFX], "factors": [T_FMAP, ("emptydict",)], "dimension": [T_DIM], "name": [("none",)], "symbol": [("none",)]}
